@@ -14,12 +14,13 @@ import (
 	"pgregory.net/rapid"
 	"verifharness/fake"
 	"verifharness/h"
+	"verifharness/model"
 )
 
 // ---- C12: handles: complete, really-served, non-blocking, race-free ----------------
 
 type HEvent struct {
-	Kind string `json:"kind"` // set | poll | refresh | lookup | expire | close | parked-poll | parked-lookup | yield
+	Kind string `json:"kind"` // set | poll | refresh | lookup | expire | close | parked-poll | parked-lookup | handle-during-poll | yield
 	Name string `json:"name,omitempty"`
 }
 
@@ -57,7 +58,7 @@ type namedHandle struct {
 func runC12(t *testing.T, c HandleCase) (*h.Violation, h.Info) {
 	var info h.Info
 	svc := fake.NewSvc()
-	all := []string{"d1", "d2", "u1", "u2", "u3"}
+	all := []string{"d1", "d2", "u1", "u2", "u3", "c1", "c2"}
 	cur := map[string]uint32{}
 	for _, n := range all {
 		svc.Set(n, 1, c12Value(n, 1))
@@ -66,7 +67,10 @@ func runC12(t *testing.T, c HandleCase) (*h.Violation, h.Info) {
 	clock := fake.NewClock(clockStart)
 	tick := newChanTicker()
 	st, err := setec.NewStore(context.Background(), setec.StoreConfig{
-		Client: svc, Secrets: []string{"d1", "d2"}, AllowLookup: true, Cache: fake.NewCache(nil),
+		// the start-up cache supplies two undeclared secrets nobody holds a handle for yet (stale from the start)
+		Client: svc, Secrets: []string{"d1", "d2"}, AllowLookup: true, Cache: fake.NewCache(model.EncodeCache(model.CacheDoc{
+			"c1": {Version: 1, Value: c12Value("c1", 1), LastAccess: 0}, "c2": {Version: 1, Value: c12Value("c2", 1), LastAccess: clockStart - 1000},
+		})),
 		PollTicker: tick, ExpiryAge: 10 * time.Second, TimeNow: clock.Now, Logf: nolog,
 	})
 	if err != nil {
@@ -244,6 +248,9 @@ func runC12(t *testing.T, c HandleCase) (*h.Violation, h.Info) {
 				break
 			}
 			known[ev.Name] = true
+			if ev.Name == "c1" || ev.Name == "c2" {
+				v = 1 // may be served from the start-up cache without a fetch; only version 1 is certain
+			}
 			ackOf(ev.Name).Store(v)
 			hmu.Lock()
 			handles = append(handles, namedHandle{ev.Name, hd})
@@ -283,6 +290,35 @@ func runC12(t *testing.T, c HandleCase) (*h.Violation, h.Info) {
 				fail("harness", "polls keep failing after a parked poll was released")
 			}
 			info.Class("reads-while-poll-parked")
+		case "handle-during-poll":
+			// the program takes a handle for a cached, so far unreferenced secret while a poll is
+			// between its snapshot and its apply step (the hook runs inside the poll's first request)
+			name := ev.Name
+			if name != "c1" && name != "c2" {
+				name = "c1"
+			}
+			if known[name] {
+				continue
+			}
+			taken := false
+			svc.ResetCount()
+			svc.OnRequest = func(n int, _ string) {
+				if n != 1 || taken {
+					return
+				}
+				taken = true
+				if hd := st.Secret(name); hd != nil {
+					known[name] = true
+					ackOf(name).Store(1)
+					hmu.Lock()
+					handles = append(handles, namedHandle{name, hd})
+					hmu.Unlock()
+					info.Class("handle-taken-during-poll")
+				}
+			}
+			clock.Advance(11)
+			doPoll(true)
+			svc.OnRequest = nil
 		case "parked-lookup":
 			name := ""
 			for _, n := range []string{"u1", "u2", "u3"} {
@@ -339,8 +375,8 @@ func genHandleCase(rt *rapid.T) HandleCase {
 	c := HandleCase{Readers: rapid.IntRange(2, 8).Draw(rt, "readers"), Yield: rapid.SampledFrom([]int{0, 1, 3, 17}).Draw(rt, "yield")}
 	c.Events = rapid.SliceOfN(rapid.Custom(func(rt *rapid.T) HEvent {
 		return HEvent{
-			Kind: rapid.SampledFrom([]string{"set", "set", "set", "poll", "poll", "refresh", "lookup", "expire", "yield", "yield", "parked-poll", "parked-lookup", "close"}).Draw(rt, "kind"),
-			Name: rapid.SampledFrom([]string{"d1", "d1", "d2", "u1", "u2", "u3"}).Draw(rt, "name"),
+			Kind: rapid.SampledFrom([]string{"set", "set", "set", "poll", "poll", "refresh", "lookup", "expire", "yield", "yield", "parked-poll", "parked-lookup", "handle-during-poll", "close"}).Draw(rt, "kind"),
+			Name: rapid.SampledFrom([]string{"d1", "d1", "d2", "u1", "u2", "u3", "c1", "c2"}).Draw(rt, "name"),
 		}
 	}), 3, 30).Draw(rt, "events")
 	return c
